@@ -526,6 +526,9 @@ class InterestNameField(Field):
                         digest_pos = i
                     else:
                         raise ValueError('unnecessary ParametersSha256DigestComponent in name')
+                    # The digest is written in place of this component, which must have its size
+                    if len(comp) != 34:
+                        raise ValueError('ParametersSha256DigestComponent must have a value of 32 octets')
             else:
                 raise TypeError('invalid type for name component')
         markers[f'{self.name}##digest_pos'] = digest_pos
